@@ -75,27 +75,45 @@ def run_one(d):
         gls = None
         if d["mode"] == "gl":
             gls = [PhredGenotypeLikelihoods([float(a) for a in tr]) for tr in d["gl"][i]]
+        elif "gl_ignored" in (d.get("api") or {}):
+            gls = [PhredGenotypeLikelihoods([float(a) for a in tr]) for tr in d["api"]["gl_ignored"][i]]
         ped.add_individual("ind%d" % i, gts, gls)
     for f, m, c in d["trios"]:
         ped.add_relationship("ind%d" % f, "ind%d" % m, "ind%d" % c)
+    api = d.get("api") or {}
+    import random as _random
+    nrng = _random.Random(api.get("name_seed", 0))
     rs = ReadSet()
     for k, r in enumerate(d["reads"]):
-        rd = Read("r%d" % k, 50, 0, ids["ind%d" % r["sample"]])
+        style = api.get("names", "index")
+        name = "r%d" % k if style == "index" else ("%08x_%d" % (nrng.randrange(1 << 32), k) if style == "random"
+                                                   else "read" + "0" * nrng.randint(0, 3) + "_%d" % k)
+        sid = api.get("source_ids", [0] * len(d["reads"]))[k]
+        rd = Read(name, 50, sid, ids["ind%d" % r["sample"]])
         for p, a, w in r["vars"]:
             rd.add_variant(p, a, w)
         rs.add(rd)
+    got = {}
     try:
-        t = PedigreeDPTable(rs, d["recomb"], ped, d["mode"] == "gl", d["positions"])
-        cost = t.get_optimal_cost()
-        part = t.get_optimal_partitioning()
-        srs, tv = t.get_super_reads()
+        t = PedigreeDPTable(rs, d["recomb"], ped, d["mode"] == "gl", None if api.get("positions_none") else d["positions"])
+        for g in api.get("getters", ["cost", "part", "sr"]):      # order and repetition of the getters must not matter
+            if g == "cost":
+                v = t.get_optimal_cost()
+            elif g == "part":
+                v = list(t.get_optimal_partitioning())
+            else:
+                srs, tv = t.get_super_reads()
+                for s in srs:
+                    assert len(s) == 2
+                v = [[[[x.position, x.allele, x.quality] for x in s[h]] for h in (0, 1)] for s in srs], list(tv)
+            if g in got and got[g] != v:
+                return {"err": "error:getter %s returned a different value on the second call" % g}
+            got[g] = v
     except RuntimeError as e:
         msg = str(e)
         return {"err": "conflict" if "Mendelian conflict" in msg else "error:" + msg}
-    al = []
-    for s in srs:
-        assert len(s) == 2
-        al.append([[(v.position, v.allele, v.quality) for v in s[h]] for h in (0, 1)])
+    cost, part = got["cost"], got["part"]
+    al, tv = got["sr"]
     if "perturb" in d:      # self-test of the check only
         if d["perturb"] == "cost":
             cost += 1
@@ -526,7 +544,7 @@ def gen_instance(rng, kind=None, mode=None, n=None, conflict=False, maxcov=None,
     # hidden haplotypes per individual give the reads some structure
     truth = [[(rng.randrange(2), rng.randrange(2)) for _ in range(n)] for _ in range(nind)]
     nreads = rng.randint(1, maxreads)
-    wmax = rng.choice([1, 2, 6, 6])
+    wmax = rng.choice([1, 2, 6, 6, 6, 40, 120])
     noise = rng.choice([0.0, 0.1, 0.3, 0.5])
     cov = [0] * n
     reads = []
@@ -570,7 +588,7 @@ def gen_instance(rng, kind=None, mode=None, n=None, conflict=False, maxcov=None,
         gls = None
     else:
         gts = [[rng.randrange(3) for _ in range(n)] for _ in range(nind)]      # ignored by the solver
-        gmax = rng.choice([3, 10, 30])
+        gmax = rng.choice([0, 3, 10, 30, 60])
         gls = []
         for i in range(nind):
             rowi = []
@@ -588,7 +606,109 @@ def gen_instance(rng, kind=None, mode=None, n=None, conflict=False, maxcov=None,
             "gt": gts, "recomb": recomb, "id_order": ids}
     if gls is not None:
         inst["gl"] = gls
+    # how the public API is driven (does not change the instance the model sees)
+    api = {"source_ids": [rng.choice([0, 0, 1, 7]) for _ in reads],
+           "names": rng.choice(["index", "random", "prefix"]),
+           "getters": rng.choice([["cost", "part", "sr"], ["sr", "part", "cost"], ["part", "sr", "cost", "sr", "part"],
+                                  ["sr", "cost", "sr"], ["cost", "cost", "part", "part", "sr"]]),
+           "name_seed": rng.randrange(1 << 30)}
+    if mode == "gt" and rng.random() < 0.25:      # likelihoods supplied although the genotypes are trusted: must be ignored
+        api["gl_ignored"] = [[[rng.randint(0, 30) for _ in range(3)] for _ in range(n)] for _ in range(nind)]
+    inst["api"] = api
+    if rng.random() < 0.2 and not conflict:
+        positions_none(inst)
     return inst
+
+
+def positions_none(inst):
+    """drive the constructor with positions=None: the columns are then the positions that occur in the reads"""
+    col = columns_of(inst)
+    for r in inst["reads"]:
+        r["vars"] = [v for v in r["vars"] if v[0] in col]
+    used = sorted({v[0] for r in inst["reads"] for v in r["vars"]})
+    if not used:
+        return
+    keep = [col[p] for p in used]
+    inst["positions"] = used
+    inst["gt"] = [[row[k] for k in keep] for row in inst["gt"]]
+    if "gl" in inst:
+        inst["gl"] = [[row[k] for k in keep] for row in inst["gl"]]
+    if "gl_ignored" in inst.get("api", {}):
+        inst["api"]["gl_ignored"] = [[row[k] for k in keep] for row in inst["api"]["gl_ignored"]]
+    inst["recomb"] = [inst["recomb"][k] for k in keep]
+    inst["api"]["positions_none"] = True
+
+
+def shape_tallies(ctx, inst):
+    """tallies of the input dimensions that matter to the solver (generator coverage audit)"""
+    dense = dense_reads(inst)
+    n = len(inst["positions"])
+    cov = coverage(inst)
+    col = columns_of(inst)
+    api = inst.get("api") or {}
+    spans = [(f, f + len(e) - 1) for _, f, e in dense]
+    if any(c == 0 for c in cov):
+        ctx.tally("shape.uncovered-column")
+        if cov and (cov[0] == 0 or cov[-1] == 0):
+            ctx.tally("shape.uncovered-first-or-last-column")
+    if any(None in e for _, _, e in dense):
+        ctx.tally("shape.read-with-interior-gap")
+    if any(v[0] not in col for r in inst["reads"] for v in r["vars"]):
+        ctx.tally("shape.read-with-unphased-variant")
+    if any(len(e) == 1 for _, _, e in dense):
+        ctx.tally("shape.single-variant-read")
+    if any(a[0] < b[0] and b[1] < a[1] for a in spans for b in spans):
+        ctx.tally("shape.nested-spans")
+    if any(a[0] < b[0] <= a[1] < b[1] for a in spans for b in spans):
+        ctx.tally("shape.interleaved-spans")
+    if len({f for f, _ in spans}) < len(spans):
+        ctx.tally("shape.reads-sharing-first-column")
+    if len(set(spans)) < len(spans):
+        ctx.tally("shape.reads-with-identical-span")
+    if n and any(sp == (0, n - 1) for sp in spans):
+        ctx.tally("shape.read-spanning-all-columns")
+    ws = [e[1] for _, _, es in dense for e in es if e]
+    if 0 in ws:
+        ctx.tally("shape.weight-zero")
+    if ws and max(ws) >= 30:
+        ctx.tally("shape.weight>=30")
+    if len(ws) != len(set(ws)):
+        ctx.tally("shape.equal-weights")
+    if n and all(x == 0 for x in inst["recomb"]):
+        ctx.tally("shape.recomb-all-zero")
+    if any(x == 0 for x in inst["recomb"]) and any(x > 0 for x in inst["recomb"]):
+        ctx.tally("shape.recomb-mixed-zero-nonzero")
+    if inst["recomb"] and max(inst["recomb"]) >= 9:
+        ctx.tally("shape.recomb>=9")
+    k = int(n ** 0.5)
+    ctx.tally(f"shape.sqrt-k={k}" + (".perfect-square" if k * k == n and n else ""))
+    if inst["mode"] == "gt" and n:
+        flat = [g for row in inst["gt"] for g in row]
+        if all(g == 1 for g in flat):
+            ctx.tally("shape.all-heterozygous")
+        if any(all(row[c] != 1 for row in inst["gt"]) for c in range(n)):
+            ctx.tally("shape.column-homozygous-in-all")
+    if inst["mode"] == "gl" and any(len(set(t)) == 1 for row in inst["gl"] for t in row):
+        ctx.tally("shape.gl-all-equal-triple")
+    for f, m, c in inst["trios"]:
+        if c < f or c < m:
+            ctx.tally("shape.child-indexed-before-a-parent")
+            break
+    used = {r["sample"] for r in inst["reads"]}
+    if len(used) < inst["nind"]:
+        ctx.tally("shape.individual-without-reads")
+    if api.get("positions_none"):
+        ctx.tally("api.positions=None")
+    if "gl_ignored" in api:
+        ctx.tally("api.likelihoods-given-but-trusted")
+    if api.get("getters") and api["getters"] != ["cost", "part", "sr"]:
+        ctx.tally("api.getters-reordered-or-repeated")
+    if any(api.get("source_ids", [])):
+        ctx.tally("api.nonzero-source-id")
+    if api.get("names", "index") != "index":
+        ctx.tally("api.read-names-" + api["names"])
+    if inst.get("id_order") and inst["id_order"] != sorted(inst["id_order"]):
+        ctx.tally("api.numeric-ids-permuted")
 
 
 # ------------------------------------------------------------------ API histories: solve, mutate in place, solve again
@@ -820,6 +940,9 @@ def evaluate(ctx, insts, results, label, with_opt=True, count=True, replays=None
                 ctx.tally("outcome.with-recombination")
             if res.get("cost"):
                 ctx.tally(f"{lab}.nonzero-cost")
+            shape_tallies(ctx, inst)
+            if "sr" in res and any(v[1] == 3 for m in res["sr"] for h in m for v in h):
+                ctx.tally("outcome.with-tie-allele")
             if len(inst["positions"]) >= 4:
                 ctx.tally("sqrt-checkpointing(k>1)")
         if "crash" in res:
@@ -1132,6 +1255,10 @@ def run(ctx):
         insts.append(gen_instance(rng, kind=rng.choice(["threegen", "twotrios"])))
     for _ in range(ctx.n(6, 150)):      # high coverage (up to 9 reads in one column), no trios
         insts.append(gen_instance(rng, kind=rng.choice(["single", "two"]), maxcov=rng.randint(7, 9), maxreads=9))
+    for _ in range(ctx.n(24, 300)):      # 9-17 columns: k = floor(sqrt(n)) in {3, 4}, incl. the perfect squares 9 and 16
+        kind = rng.choice(["single", "two", "trio", "trio"])
+        insts.append(gen_instance(rng, kind=kind, n=rng.choice([9, 9, 10, 12, 15, 16, 16, 17]),
+                                  maxcov=rng.randint(2, 3 if kind == "trio" else 4), maxreads=9))
     if not ctx.quick:
         ex = exhaustive_small()
         ctx.extra["exhaustive_spaces"] = ("all 3x3 and 2x4 unit-weight gap-free matrices of one heterozygous individual (%d instances "
